@@ -66,10 +66,12 @@ pub struct CliOpts<'a> {
     pub cap: usize,
     /// close stdin immediately after writing `stdin`
     pub stdin: &'a [u8],
+    /// instead of a pipe: open this path as stdin (a directory makes every read fail with EISDIR)
+    pub stdin_path: Option<&'a str>,
 }
 impl<'a> Default for CliOpts<'a> {
     fn default() -> Self {
-        CliOpts { interpreted: false, env: vec![], timeout_s: 20.0, cap: 8 << 20, stdin: b"" }
+        CliOpts { interpreted: false, env: vec![], timeout_s: 20.0, cap: 8 << 20, stdin: b"", stdin_path: None }
     }
 }
 
@@ -94,17 +96,28 @@ pub fn run_cli_path(path: &str, o: &CliOpts) -> CliOut {
     for (k, v) in &o.env {
         cmd.env(k, v);
     }
-    cmd.stdin(Stdio::piped()).stdout(Stdio::piped()).stderr(Stdio::piped());
+    let from_path = o.stdin_path.and_then(|p| std::fs::File::open(p).ok());
+    match from_path {
+        Some(f) => {
+            cmd.stdin(Stdio::from(f));
+        }
+        None => {
+            cmd.stdin(Stdio::piped());
+        }
+    }
+    cmd.stdout(Stdio::piped()).stderr(Stdio::piped());
     let mut child = match cmd.spawn() {
         Ok(c) => c,
         Err(e) => {
             return CliOut { stdout: vec![], stderr: format!("spawn failed: {}", e).into_bytes(), code: None, signal: None, timed_out: true, flooded: false, wall: 0.0 }
         }
     };
-    let mut stdin = child.stdin.take().unwrap();
+    let stdin = child.stdin.take();
     let data = o.stdin.to_vec();
     let feeder = std::thread::spawn(move || {
-        let _ = stdin.write_all(&data);
+        if let Some(mut stdin) = stdin {
+            let _ = stdin.write_all(&data);
+        }
         // dropping closes the pipe
     });
     let mut so = child.stdout.take().unwrap();
